@@ -103,7 +103,7 @@ func stressOf(v *Violation) int {
 	if v == nil {
 		return 0
 	}
-	if v.Kind == "atomicity" {
+	if v.Kind == "atomicity" || v.Kind == "deadlock" {
 		return 3000
 	}
 	if v.Kind == "race" && v.Stress > 20 {
@@ -158,6 +158,10 @@ func finish(prop, tier string, results []*harnessResult, known map[string]bool, 
 			// one native run per race counterexample: the race detector reports per process
 			k += "|race" + p.c.ID
 		}
+		if v != nil && v.Kind == "deadlock" {
+			// a run of its own: the stress rounds are expected to hang
+			k += "|deadlock" + p.c.ID
+		}
 		byPkg[k] = append(byPkg[k], p)
 	}
 	for _, r := range results {
@@ -203,8 +207,12 @@ func finish(prop, tier string, results []*harnessResult, known map[string]bool, 
 			for _, p := range ps {
 				cases = append(cases, p.c)
 			}
-			out, raw, err := runNative(mod, parts[1], cases, names[mod.name], 300*time.Second)
-			if err != nil && len(out) == 0 {
+			limit := 300 * time.Second
+			if strings.Contains(k, "|deadlock") {
+				limit = 45 * time.Second
+			}
+			out, raw, err := runNative(mod, parts[1], cases, names[mod.name], limit)
+			if err != nil && len(out) == 0 && !strings.Contains(k, "|deadlock") {
 				replayNotes = append(replayNotes, "native replay run failed for "+k+": "+err.Error()+"\n"+tail(raw, 2000))
 			}
 			for _, p := range ps {
@@ -214,6 +222,10 @@ func finish(prop, tier string, results []*harnessResult, known map[string]bool, 
 					ok := false
 					if p.v.Kind == "race" {
 						ok = hasLine(lines, "race-detected")
+					} else if p.v.Kind == "deadlock" {
+						// reproduced when the stress rounds hang (the test binary is killed by its
+						// deadline or the runtime reports that all goroutines are asleep)
+						ok = strings.Contains(raw, "test timed out") || strings.Contains(raw, "all goroutines are asleep")
 					} else if p.v.Kind == "atomicity" {
 						// schedule-dependent: reproduced when a stress round broke one of the
 						// harness's functional assertions
